@@ -49,7 +49,11 @@ GRAPHCOR = {c: TIE("GraphCorollaries", *[n for n in ("gen_C11_mask", "gen_C11_ma
 TIE_BF = TIE("BfValid", "tie_LocalBioFilter_init", "tie_LocalBioFilter_valid", "tie_LocalBioFilter", "tie_DefaultBioFilter_valid")
 BFCOR = {"C12": TIE("BfCorollaries", "gen_C12_total", "gen_C12_valid_all", "gen_C12_last", "gen_C12_window_conj", "gen_C12_foreign",
                     "gen_C12_revcomp", "gen_C12_accepted"),
-         "C02": TIE("BfCorollaries", "gen_C02_ctor_partial", "gen_C12_accepted")}
+         "C02": TIE("BfCorollaries", "gen_C02_ctor_partial", "gen_C12_accepted") +
+                TIE("BfPipeline", "genTable_eq", "gen_E2E_biofilter_windows", "gen_E2E_biofilter_whole")}
+C02B = (T("C02b", "C02_float_consistent", "C02_float_gcLo_range", "C02_float_gcHi_range", "C02_float_defined") +
+        T("FloatSpec", "ratLog2_spec", "roundPos_spec", "roundDouble_isB64", "roundDouble_sign", "roundDouble_nearest",
+          "roundDouble_none_iff", "roundDouble_of_isB64"))
 TIE_CCG = TIE("SwCoding", "tie_connect_coding_graph")
 TIE_SCORE = TIE("GzScore", "tie_calculate_intersection_score")
 TIE_REP = TIE("SwRepair", "tie_repair_dna") + TIE("GzPath", "tie_path_matching")
@@ -68,7 +72,7 @@ PROPS = {
                      "out-degrees) x start x permutation table x message x mode x check length; a case is one encode "
                      "line; non-trivial = message value > 0 and the walk visits a branching vertex; distinct = hash "
                      "of the operation line"),
-    "C02": dict(level="proof", theorems=T("C02", "C02_windows", "C02_generated_subgraph", "C02_whole", "C02_ctor_partial", "C02_ctor_counterexample") + T("EndToEnd", "E2E_generated_subgraph") + TIE_BUILD + TIE_CCG + TIE_SW[1:2] + GRAPHCOR["C02"] + TIE_BF[:3] + BFCOR["C02"], tie=[("spiderweb", ["find_vertices", "connect_valid_graph", "connect_coding_graph", "encode"]), "biofilter"], gens=["C02", "GENSW", "GENBF"],
+    "C02": dict(level="proof", theorems=T("C02", "C02_windows", "C02_generated_subgraph", "C02_whole", "C02_ctor_partial", "C02_ctor_counterexample") + T("EndToEnd", "E2E_generated_subgraph") + TIE_BUILD + TIE_CCG + TIE_SW[1:2] + GRAPHCOR["C02"] + TIE_BF[:3] + BFCOR["C02"] + C02B, tie=[("spiderweb", ["find_vertices", "connect_valid_graph", "connect_coding_graph", "encode"]), "biofilter"], gens=["C02", "GENSW", "GENBF"],
                 rule="filter grid (run x GC range x motifs, and user-defined table predicates) x k x threshold x start x "
                      "message x table x mode, plus the constructor grid and the threshold grid; non-trivial = a "
                      "non-empty strand was emitted / configuration accepted"),
@@ -102,14 +106,16 @@ PROPS = {
                 rule="filters (documented-interface table filter, keyword-extended filter, LocalBioFilter, empty) x "
                      "k, and masks x dtype for the valid graph; non-trivial = mask neither empty nor full"),
     "C12": dict(level="proof", theorems=T("C12", "C12_valid_all", "C12_last", "C12_window_conj", "C12_revcomp",
-                                          "C12_foreign", "C12_isInfix", "C12_accepted") + T("C12b", "C12_thresholds", "C12_exact_consistent") + TIE_BF + BFCOR["C12"],
+                                          "C12_foreign", "C12_isInfix", "C12_accepted") + T("C12b", "C12_thresholds", "C12_exact_consistent") + C02B + TIE_BF + BFCOR["C12"],
                 tie="biofilter", gens=["C12", "GENBF"],
                 rule="(configuration, string) pairs incl. biased strands, foreign characters, k up to 25; "
                      "non-trivial = toggling one rule flips the verdict",
                 trusted=["the double-precision products lo*k, hi*k, k-lo*k are modelled exactly (Model/Float.lean: exact rational "
                          "result, round to nearest even, gradual underflow) and the model derives the integer thresholds itself "
-                         "(floatGcRule); that rounding model is validated against CPython on every run (driver operation `fop`), "
-                         "not proved against IEEE-754"]),
+                         "(floatGcRule); the rounding model is PROVED to be IEEE-754 binary64 round-to-nearest-even "
+                         "(Props/FloatSpec.lean: result is a binary64 value, no binary64 value is nearer, ties to even, overflow "
+                         "threshold); that CPython's float `*` and `-` are correctly rounded binary64 operations is assumed and "
+                         "validated on every run (driver operation `fop`)"]),
     "C13": dict(level="proof", theorems=T("C13", "C13_idx_of_kmer", "C13_kmer_of_idx", "C13_latters", "C13_formers",
                                           "C13_latters_lt", "C13_formers_lt", "C13_former_iff_latter", "C13_complete",
                                           "C13_wfdb_induced", "C13_wfdb_valid_graph", "C13_wfdb_setEnt",
